@@ -1719,6 +1719,8 @@ def run(facts, rep, tier):
              "taken for a note reference gets the extension / title / path treatment of one).")
     from . import c05
     c05.rule_r3(facts, rep, "C01-R4c")
+    rep.rule("C01-R4d", "= C06-R7b: link destinations survive formatting whatever their scheme (is_ref_url does not take `ftp://..` / `tel:..` for a note and append the extension).")
+    c05.rule_scheme_list(facts, rep, "C01-R4d")
     rep.rule("C01-R4d", "= C05-R7: only a one-inline paragraph is a block reference (otherwise the other inlines of the paragraph are dropped when the note is formatted).")
     c05.rule_r7(facts, rep, "C01-R4d")
     rule_r11(facts, rep)
